@@ -627,6 +627,33 @@ def special_types():
         fl = Field("value", 0, STRING if name != "EncOnlySkipLast" else U64)
         td.fields = [sk, fl] if first else [fl, sk]
         out.append(finish(td))
+    # field names a macro is tempted to use for its own locals, in structs and named variants
+    def local_names(prefix_tag):
+        names = ["tag", "len", "n", "i", "e", "d", "ctx", "buf", "pos", "nil", "ok", "err", "val", "key", "idx", "size"]
+        tys = [U64, opt(U16), STRING, U8, opt(STRING), BOOL, U32, opt(U8)]
+        return [Field(nm, k, tys[k % len(tys)], tag=(prefix_tag if k % 5 == 2 else None)) for k, nm in enumerate(names)]
+    for name, enc in [("LocalNamesArr", "array"), ("LocalNamesMap", "map")]:
+        td = TypeDef(name)
+        td.encoding = enc
+        td.fields = local_names(9)
+        out.append(finish(td))
+    td = TypeDef("LocalNamesEnum")
+    td.kind = "enum"
+    td.variants = [("A", 0, "named", None, None, local_names(300)), ("B", 1, "named", "map", 7, local_names(None)[:9])]
+    out.append(finish(td))
+    # wide tuple variants / tuple structs (positions 10+ sort differently as text than as numbers)
+    def wide(n):
+        tys = [U8, U16, STRING, BOOL, U32, opt(U8), I64, U64, CHAR, opt(STRING), I8, U16, STRING, U8]
+        return [Field("w%d" % k, k, tys[k % len(tys)]) for k in range(n)]
+    td = TypeDef("WideTupleEnum")
+    td.kind = "enum"
+    td.variants = [("A", 0, "tuple", None, None, wide(12)), ("B", 1, "tuple", "map", None, wide(13)), ("C", 2, "named", None, None, wide(11))]
+    out.append(finish(td))
+    for name, enc in [("WideTupleArr", "array"), ("WideTupleMap", "map")]:
+        td = TypeDef(name)
+        td.encoding, td.shape = enc, "tuple"
+        td.fields = wide(14)
+        out.append(finish(td))
     # PhantomData fields with an index are mandatory like any other (the empty array must be there)
     for name, enc, shape in [("PhantomArr", "array", "named"), ("PhantomMap", "map", "named"), ("PhantomTup", None, "tuple")]:
         td = TypeDef(name)
